@@ -17,11 +17,11 @@ fn opt_raw<C: W>(p: Option<C::P>) -> String {
 
 pub fn run<C: W>(ctx: &mut Ctx) {
     let t = C::TAG;
-    let n_rand = if ctx.quick() { 2 } else { 6 };
+    let n_rand = if crate::small(ctx) { 2 } else { 6 };
     let ops = operands::<C>(ctx, n_rand);
     let mut raws: Vec<(C::P, &'static str)> = ops.iter().map(|o| (o.p, "valid")).collect();
     let mut rng = ctx.rng(&format!("{t}-raw"));
-    let n_garbage = if ctx.quick() { 4 } else { 20 };
+    let n_garbage = if crate::small(ctx) { 4 } else { 20 };
     for i in 0..n_garbage {
         let (x, y) = (C::B::random(&mut rng), C::B::random(&mut rng));
         let z = match i % 4 {
@@ -48,7 +48,7 @@ pub fn run<C: W>(ctx: &mut Ctx) {
         ctx.case(&format!("{t}-raw-oncurve"), true, &format!("{t} oncurve_xy {}/{}", big::tok(&ax.to_e()), big::tok(&ay.to_e())), &format!("{}", bool::from(pa.is_on_curve()) as u8));
         ctx.case(&format!("{t}-raw-oncurve"), true, &format!("{t} oncurve_xy {}/{}", big::tok(&x.to_e()), big::tok(&y.to_e())), &format!("{}", bool::from(C::A::from_xy(x, y).is_some()) as u8));
     }
-    let idx: Vec<usize> = if ctx.quick() { (0..raws.len()).step_by(2).collect() } else { (0..raws.len()).collect() };
+    let idx: Vec<usize> = if crate::small(ctx) { (0..raws.len()).step_by(2).collect() } else { (0..raws.len()).collect() };
     for &i in &idx {
         for &j in &idx {
             let (p, q) = (raws[i].0, raws[j].0);
@@ -64,8 +64,8 @@ pub fn run<C: W>(ctx: &mut Ctx) {
         ctx.case(&format!("{t}-raw-add"), true, &format!("{t} addraw:P=-Q {} {}", raw_tok::<C>(&p), raw_tok::<C>(&(-p))), &raw_tok::<C>(&(p + (-p))));
     }
     // raw results of the scalar-multiplication loops
-    let scal = scalars::<C>(ctx, if ctx.quick() { 1 } else { 4 });
-    for (p, class) in raws.iter().step_by(if ctx.quick() { 4 } else { 2 }) {
+    let scal = scalars::<C>(ctx, if crate::small(ctx) { 1 } else { 4 });
+    for (p, class) in raws.iter().step_by(if crate::small(ctx) { 4 } else { 2 }) {
         for (sname, s) in &scal {
             ctx.count(&format!("{t}-raw-scalar:{sname}"));
             let k = big::hex(&s.to_big());
@@ -82,7 +82,7 @@ pub fn run<C: W>(ctx: &mut Ctx) {
 /// BN254 G2 only: the `CofactorGroup` methods.
 pub fn run_g2_cofactor(ctx: &mut Ctx) {
     use crate::curves::Bn2;
-    let ops = operands::<Bn2>(ctx, if ctx.quick() { 2 } else { 6 });
+    let ops = operands::<Bn2>(ctx, if crate::small(ctx) { 2 } else { 6 });
     let f = Bn2::fld();
     let zero = f.small(&bn256::G2::b().to_e(), 0);
     for o in &ops {
